@@ -208,7 +208,8 @@ def run_cases(c, cases, tag, engines=('large', 'fast'), want_spec=True, vflags='
     """executes the cases; returns dict engine-> list of raw lines, 'model' -> Large model lines, 'spec' -> Spec lines"""
     vd = ensure_vdriver('hooks', units=['vd_run'])
     vm = ensure_vmodel('chart')
-    key = hashlib.sha1(('%s|%s|%s|%s|%s|%s|%s' % (tag, c.seed, c.tier, os.path.getmtime(vd), os.path.getmtime(vm), vflags, len(cases))).encode()).hexdigest()[:16]
+    content = hashlib.sha1('\n'.join(impl_line('large', x['tree'], x['dm'], x['late'], x['events']) for x in cases).encode('latin-1')).hexdigest()
+    key = hashlib.sha1(('%s|%s|%s|%s|%s|%s|%s|%s' % (tag, c.seed, c.tier, os.path.getmtime(vd), os.path.getmtime(vm), vflags, len(cases), content)).encode()).hexdigest()[:16]
     cdir = os.path.join(BUILD, 'cache')
     os.makedirs(cdir, exist_ok=True)
     cf = os.path.join(cdir, 'runs-%s.pkl' % key)
